@@ -834,7 +834,7 @@ HUGE_ID = 'C08-huge-struct-overflow'
 def huge_leg(ctx, corr):
     """aggregates of 256 MiB or more: struct_decl counts bits in an int (known finding; outside the Int model)"""
     src = '#include <stddef.h>\nint printf(const char *, ...);\n'
-    src += 'struct H1 { char a[1<<28]; char b; };\nstruct H2 { char a[1<<27]; char b[1<<27]; int c; };\nstruct H3 { char a[(1<<28) - 8]; int b; char c; };\n'
+    src += 'struct H1 { char a[1<<28]; char b; };\nstruct H2 { char a[1<<27]; char b[1<<27]; int c; };\nstruct H3 { char a[(1<<28) - 16]; int b; char c; };\n'
     src += 'int main(void) {\n'
     src += '  printf("H1 %ld %ld %ld\\n", (long)sizeof(struct H1), (long)_Alignof(struct H1), (long)offsetof(struct H1, b));\n'
     src += '  printf("H2 %ld %ld %ld\\n", (long)sizeof(struct H2), (long)_Alignof(struct H2), (long)offsetof(struct H2, c));\n'
